@@ -10,7 +10,12 @@ use purr_verif_harness::{coq_symbol, Rng};
 use std::collections::BTreeMap;
 
 const OMEGA: char = '~';
-const OUTSIDE: [char; 13] = [' ', 'Q', 'j', '\u{e9}', '\u{2028}', '\u{10FFFF}', '!', 'J', '\u{b2}', '\u{663}', '\u{bd}', '\u{ff12}', '\u{1d7d9}'];
+// outside the alphabet: blanks, letters, non-ASCII numerals, noncharacters and limits of the code space, and characters whose low 8 or 16 bits
+// alias a SMILES character ('0'..'9', '%', '(', '.', '=', '@', 'C', 'H', '[' seen through `as u8` / `as u16`)
+const OUTSIDE: [char; 38] = [' ', 'Q', 'j', '\u{e9}', '\u{2028}', '\u{10FFFF}', '!', 'J', '\u{b2}', '\u{663}', '\u{bd}', '\u{ff12}', '\u{1d7d9}',
+    '\u{0}', '\u{7f}', '\u{80}', '\u{ffff}', '\u{fffe}', '\u{fffd}', '\u{d7ff}', '\u{e000}', '\u{feff}',
+    '\u{130}', '\u{131}', '\u{135}', '\u{139}', '\u{125}', '\u{128}', '\u{12e}', '\u{13d}', '\u{140}', '\u{143}', '\u{148}', '\u{15b}',
+    '\u{10031}', '\u{10043}', '\u{1005b}', '\u{1f635}'];
 #[derive(Clone, PartialEq, Eq, Debug)]
 struct Obs { out: String, cursor: usize, eol: bool }   // out is already Coq syntax for `outcome`
 type Prod = dyn Fn(&mut Scanner) -> Result<Option<String>, Error>;
